@@ -1008,6 +1008,15 @@ def execute(sim, plan):
                             ["inplace_retry", opk, "failed-again", where] + tag,
                             f"op {i} {op}: failed on B with {rb!r} after reset {tag}; the same call repeated on the same objects ({where}) failed again: {rb2!r:.500}; locally it succeeded ({ra!r:.200})",
                         )
+                    if a_ok and opk == "parent_map" and A.depth and armed["verb"] == "Repository.get_parent_map" and not isinstance(rb2, Failed) and norm(rb2) != norm(ra) and all(e in norm(ra) for e in norm(rb2)):
+                        lost = [e[0] for e in norm(ra) if e not in norm(rb2)]
+                        sim.fail(
+                            "inplace_retry",
+                            ["inplace_retry", "parent_map", "negative-cache-after-failed-rpc"],
+                            f"op {i} {op}: inside an outer lock (parents cache enabled) the Repository.get_parent_map request failed for good ({rb!r:.120}, {tag}); the SAME get_parent_map call repeated on the same RemoteRepository "
+                            f"answers without asking the server and reports {lost} as absent: {norm(rb2)!r:.200}, locally {norm(ra)!r:.200}. vcsgraph's (Rust) CachingParentsProvider.get_parent_map records the requested keys as missing "
+                            "although the underlying _get_parent_map_rpc raised; they stay in the negative cache (missing_keys) until the cache is reset at unlock / refresh_data",
+                        )
                     if a_ok and opk not in ("pull", "push", "fetch") and norm(rb2) != norm(ra):
                         sim.fail("inplace_retry", ["inplace_retry", opk, "value", where] + tag, f"op {i} {op}: repeated after a reported failure ({where}) it returned {norm(rb2)!r:.500}, locally {norm(ra)!r:.500}")
                     d = obs_diff(obs_a, obs_b, ignore=DEFERRED if A.depth else ())
